@@ -1129,16 +1129,13 @@ fn book_and_engine(e: &mut Exec, rng: &mut Rng, kv: &Args, positions: &[(String,
             // force the game down this line, asking the engine at every node
             for mv in line.iter() {
                 let snap_before = e.exec("gsnap");
-                let r = e.exec("gengine");
-                if !r.starts_with("gengine Ok") {
+                // ask the engine (selection only: nothing is played), then play the line's move
+                let r = e.exec("gselect");
+                if !r.starts_with("gselect Ok") {
                     let msg = format!("! C15 engine asked for a move in a position with legal moves answered [{}] after book prefix, in [{}]", r, snap_before);
                     e.line(&msg);
                     break;
                 }
-                // take the engine's move back and play the line's move instead
-                let chosen = r.split_whitespace().nth(2).unwrap().to_string();
-                e.exec(&format!("gsync {}", chosen));
-                e.exec("gunplay");
                 let res = e.exec(&format!("gcoord {} {}", &mv[0..2], &mv[2..4]));
                 if !res.contains(" Ok") {
                     let msg = format!("! C15 book move {} is not a legal move in [{}]", mv, snap_before);
